@@ -183,8 +183,14 @@ def parse_graphic_sequence(
                 if add_erroneous or setting.parsable or current_set == [AnsiParam.RESET.value]:
                     output.append(setting)
                 current_set = []
-        elif add_erroneous:
-            output.append(AnsiSetting(value))
+        else:
+            if current_set:
+                # A value that is not a number ends the set being collected, which is therefore incomplete
+                if add_erroneous:
+                    output.append(AnsiSetting(current_set))
+                current_set = []
+            if add_erroneous:
+                output.append(AnsiSetting(value))
     if current_set and add_erroneous:
         # Dangling set of values
         output.append(AnsiSetting(current_set))
